@@ -302,3 +302,22 @@ def random_rho(rng) -> dict:
 
 def frac(x) -> Fraction:
     return Fraction(float(x))
+
+
+def warm_with_other_contents(pvt: dict, kr: dict, calls) -> None:
+    """History independence: before the judged calls, the *same dict objects* are used once with other contents (other
+    reference densities, two rel-perm curves swapped) on the same grids, then restored.  Results must depend on what the
+    dicts hold when the judged call is made, not on what an earlier call saw."""
+    saved = {k: pvt[k] for k in ("rho_o0", "rho_g0", "rho_w0")}
+    saved_kr = dict(kr)
+    try:
+        pvt.update({k: 1.7 * v + 0.013 for k, v in saved.items()})
+        kr["kro"], kr["krg"] = saved_kr["krg"], saved_kr["kro"]
+        for f in calls:
+            try:
+                quiet(f)
+            except Exception:  # noqa: BLE001  (the warm-up is not what is judged)
+                pass
+    finally:
+        pvt.update(saved)
+        kr.update(saved_kr)
